@@ -223,4 +223,4 @@ def check_case(case):
 
 def run(tier="quick", seed=0):
     return common.run("bounded.C09", cases(tier, seed), bound="3 candidates x <=3 ballots, 12-query histories (quick); <=5 x 6 random (thorough)",
-                      rule=RULE, budget_s=170 if tier == "quick" else 1500)
+                      rule=RULE, budget_s=600 if tier == "quick" else 1500)
